@@ -91,6 +91,8 @@ type IV struct {
 	inprog map[ssa.Value]bool
 	// Assume lets a rule add facts about parameters (preconditions proven at call sites).
 	Assume map[string]Itv // term string -> interval
+	// CallSummary gives the interval of a call result for callees with a verified summary.
+	CallSummary func(c *ssa.Call, arg func(ssa.Value) Itv) (Itv, bool)
 }
 
 func NewIV(w *World, tb *TB) *IV {
@@ -378,6 +380,11 @@ func (iv *IV) structural(v ssa.Value, b *ssa.BasicBlock, depth int) Itv {
 	case *ssa.Phi:
 		return iv.phiItv(v, depth)
 	case *ssa.Call:
+		if iv.CallSummary != nil {
+			if r, ok := iv.CallSummary(v, sub); ok {
+				return r
+			}
+		}
 		if bu, ok := v.Call.Value.(*ssa.Builtin); ok && (bu.Name() == "len" || bu.Name() == "cap") {
 			lo, hi := iv.lenBounds(v.Call.Args[0], b, depth)
 			r := Itv{bi(0), tr.Hi}
